@@ -26,7 +26,19 @@ var litPres = []string{"0", "alpha", "alpha.1", "beta", "rc.1", "1", "a", "rc", 
 // partial draws a (possibly partial, possibly wildcarded) version literal.
 //
 //	wild: allow x / X / * components; pre: allow a prerelease on a full version.
+// anchors are full versions that operands are drawn from a third of the time,
+// so that bounds of different comparators, alternatives and constraints
+// coincide exactly (closed vs open ends at the same version, touching spans).
+var anchors = []string{"1.0.0", "2.0.0", "1.5.0", "2.3.4", "0.0.0", "3.0.0", "1.2.3"}
+var anchorsPre = []string{"1.0.0-0", "2.0.0-alpha", "1.2.3-alpha", "2.0.0-rc.1"}
+
 func partial(t *rapid.T, label string, wild, pre, build bool) string {
+	if k := rapid.IntRange(0, 11).Draw(t, label+"anchor"); k < 4 {
+		if pre && k == 0 {
+			return rapid.SampledFrom(anchorsPre).Draw(t, label+"ap")
+		}
+		return rapid.SampledFrom(anchors).Draw(t, label+"a")
+	}
 	n := rapid.SampledFrom([]int{1, 2, 2, 3, 3, 3, 3}).Draw(t, label+"n")
 	var parts []string
 	for i := 0; i < n; i++ {
@@ -81,6 +93,16 @@ func orRange(ops []string, commaOK bool) *rapid.Generator[string] {
 		nalt := rapid.SampledFrom([]int{1, 1, 1, 2, 2, 3}).Draw(t, "nalt")
 		var alts []string
 		for i := 0; i < nalt; i++ {
+			// an explicit interval between two anchor versions, each end open or
+			// closed: alternatives (and the two constraints of a pair) then share
+			// end points with different closedness
+			if rapid.IntRange(0, 3).Draw(t, "interval") == 0 {
+				all := append(append([]string{}, anchors...), anchorsPre...)
+				lo := rapid.SampledFrom(all).Draw(t, "ilo")
+				hi := rapid.SampledFrom(all).Draw(t, "ihi")
+				alts = append(alts, rapid.SampledFrom([]string{">=", ">", ">="}).Draw(t, "ilop")+lo+" "+rapid.SampledFrom([]string{"<", "<=", "<"}).Draw(t, "ihop")+hi)
+				continue
+			}
 			if rapid.IntRange(0, 9).Draw(t, "hyphen") == 0 {
 				a := partial(t, "lo", true, true, false)
 				b := partial(t, "hi", true, true, false)
